@@ -1,14 +1,143 @@
 package c12
 
 import (
+	"bytes"
+	"encoding/json"
+	"fmt"
+	"strings"
+
+	"github.com/go-openapi/strfmt"
 	"pgregory.net/rapid"
 
 	"verif/internal/ev"
+	"verif/internal/gen"
+	"verif/internal/hook"
+	"verif/internal/obs"
+	"verif/internal/refmodel"
+	"verif/internal/specdoc"
 )
 
-// The document part is added once the specification generator exists.
-func kindsPool() []string { return []string{"schema", "schema", "param", "header"} }
+func kindsPool() []string { return []string{"schema", "schema", "schema", "param", "header"} }
 
-func genDoc(t *rapid.T, c *Case) {}
+func genDoc(t *rapid.T, c *Case) {
+	doc, src := specdoc.Base(t, false)
+	n := rapid.SampledFrom([]int{0, 0, 1, 2}).Draw(t, "nmut")
+	for i := 0; i < n; i++ {
+		gen.Mutate(t, doc)
+	}
+	c.Def = gen.Text(doc)
+	c.Value = src
+	c.Continue = rapid.Bool().Draw(t, "continue")
+	c.Entry = "spec"
+}
 
-func checkDoc(c Case) ev.Outcome { return ev.Outcome{} }
+// selfReferential tells whether some definition reaches itself through $ref.
+func selfReferential(doc map[string]any) bool {
+	defs, _ := doc["definitions"].(map[string]any)
+	var refsOf func(v any, acc map[string]bool)
+	refsOf = func(v any, acc map[string]bool) {
+		switch x := v.(type) {
+		case map[string]any:
+			if r, ok := x["$ref"].(string); ok && strings.HasPrefix(r, "#/definitions/") {
+				acc[strings.TrimPrefix(r, "#/definitions/")] = true
+			}
+			for _, w := range x {
+				refsOf(w, acc)
+			}
+		case []any:
+			for _, w := range x {
+				refsOf(w, acc)
+			}
+		}
+	}
+	edges := map[string]map[string]bool{}
+	for name, d := range defs {
+		acc := map[string]bool{}
+		refsOf(d, acc)
+		edges[name] = acc
+	}
+	state := map[string]int{}
+	var visit func(n string) bool
+	visit = func(n string) bool {
+		switch state[n] {
+		case 1:
+			return true
+		case 2:
+			return false
+		}
+		state[n] = 1
+		for m := range edges[n] {
+			if visit(m) {
+				return true
+			}
+		}
+		state[n] = 2
+		return false
+	}
+	for n := range edges {
+		if visit(n) {
+			return true
+		}
+	}
+	return false
+}
+
+func checkDoc(c Case) (out ev.Outcome) {
+	if c.Continue && specdoc.KnownCrasher(c.Def) != "" {
+		out.Excluded = append(out.Excluded, "avoided known crasher (claimed under C07)")
+		return out
+	}
+	doc, err, pmsg := obs.LoadDoc([]byte(c.Def))
+	if err != nil || pmsg != "" || doc == nil {
+		out.Excluded = append(out.Excluded, "document rejected by the loader")
+		return out
+	}
+	rawBefore := append([]byte(nil), doc.Raw()...)
+	specBefore, err := json.Marshal(doc.Spec())
+	if err != nil {
+		out.Excluded = append(out.Excluded, "parsed specification does not marshal")
+		return out
+	}
+	o := obs.ValidateSpec(doc, strfmt.Default, c.Continue, nil)
+	if o.Panic != "" {
+		hook.ResetPools()
+		out.Excluded = append(out.Excluded, "spec validation panics (a C07 matter)")
+		return out
+	}
+	if !bytes.Equal(rawBefore, doc.Raw()) {
+		return ev.Failf("validating the specification changed the bytes of the loaded document")
+	}
+	tree, _ := refmodel.Decode([]byte(c.Def))
+	m, _ := tree.(map[string]any)
+	selfRef := m != nil && selfReferential(m)
+	out.Classes = append(out.Classes, "kind:doc", fmt.Sprintf("accepted:%v", o.Valid), fmt.Sprintf("self-referential-definitions:%v", selfRef), "source:"+specdoc.SourceClass(c.Value))
+	if o.Valid && !selfRef {
+		specAfter, err := json.Marshal(doc.Spec())
+		if err != nil || !bytes.Equal(specBefore, specAfter) {
+			i := 0
+			for i < len(specBefore) && i < len(specAfter) && specBefore[i] == specAfter[i] {
+				i++
+			}
+			lo := i - 300
+			if lo < 0 {
+				lo = 0
+			}
+			hi := func(b []byte) int {
+				if i+300 < len(b) {
+					return i + 300
+				}
+				return len(b)
+			}
+			return ev.Failf("validating an accepted specification without self-referential definitions changed the parsed specification (JSON of doc.Spec(), first difference at byte %d): before …%s…, after …%s…", i, specBefore[lo:hi(specBefore)], specAfter[lo:hi(specAfter)])
+		}
+	}
+	out.Nontrivial = strings.Contains(c.Def, `"$ref":"#/parameters/`) && strings.Contains(c.Def, `"$ref":"#/definitions/`)
+	return out
+}
+
+func trunc(b []byte) string {
+	if len(b) > 1500 {
+		return string(b[:1500]) + "…"
+	}
+	return string(b)
+}
